@@ -9,31 +9,30 @@ import (
 
 const ruleCommon = "one evaluation = one simulated run (gateway + world in one bubble) fully determined by its seed; distinct = distinct FNV fingerprint of the canonical decision trace; non-trivial = "
 
-var planTable = map[string]Plan{
-	"C01": {Profiles: []string{"core"}, Quick: 60000, Thorough: 1500000, Level: "exploration",
-		Rule: ruleCommon + "quiescence was reached with at least one client holding a resource that received at least one event (oracle C01.a evaluated at least once)"},
-	"C02": {Profiles: []string{"core"}, Quick: 60000, Thorough: 1500000, Level: "exploration",
-		Rule: ruleCommon + "a client received at least one frame carrying a resource set while it already held other resources"},
-	"C03": {Profiles: []string{"core"}, Quick: 60000, Thorough: 1500000, Level: "exploration",
-		Rule: ruleCommon + "at least one holding interval with one or more delivered events was checked against the service stream"},
-	"C07": {Profiles: []string{"core"}, Quick: 60000, Thorough: 1500000, Level: "exploration",
-		Rule: ruleCommon + "a connection had two or more requests outstanding at the same time"},
-	"C08": {Profiles: []string{"core"}, Quick: 60000, Thorough: 1500000, Level: "exploration",
-		Rule: ruleCommon + "at least two unsubscribe verdicts were compared with the counter model"},
-	"C09": {Profiles: []string{"core"}, Quick: 60000, Thorough: 1500000, Level: "exploration",
-		Rule: ruleCommon + "at least one event subscription was released by the eviction timer and the end-of-run check ran"},
-}
+var planTable = map[string]Plan{}
 
 func init() {
-	acc := func(nt string) Plan {
-		return Plan{Profiles: []string{"access"}, Quick: 60000, Thorough: 1500000, Level: "exploration", Rule: ruleCommon + nt}
+	mk := func(profile, nt string) Plan {
+		return Plan{Profiles: []string{profile}, Quick: 60000, Thorough: 1500000, Level: "exploration", Rule: ruleCommon + nt}
 	}
-	planTable["C04"] = acc("data was handed to a client as the requested resource at least once after a revocation trigger (token event on a connection with a token, reaccess event, access reset) had been delivered")
-	planTable["C05"] = acc("at least one call/new request was forwarded or refused after a revocation trigger had been delivered")
-	planTable["C06"] = acc("at least one revocation trigger was delivered while a client held a settled direct subscription it affects")
-	planTable["C10"] = acc("two or more connections with different tokens made requests, or a token reset was delivered")
-	planTable["C15"] = Plan{Profiles: []string{"core"}, Quick: 60000, Thorough: 1500000, Level: "exploration",
-		Rule: ruleCommon + "the run delivered at least one service message to the gateway"}
+	planTable["C01"] = mk("core,query,reset", "the run reached quiescence, compared at least one held resource with what the service announced (oracle C01.a), and a client had received at least one event frame")
+	planTable["C02"] = mk("core", "a client received at least one frame carrying a resource set while it already held other resources")
+	planTable["C03"] = mk("core,query,reset", "at least one holding interval was checked against the service's event stream and a client had received at least one event frame")
+	planTable["C07"] = mk("core,throttle", "a connection sent a request while an earlier request of its own was still unanswered")
+	planTable["C08"] = mk("core", "at least two unsubscribe verdicts were compared with the counter model")
+	planTable["C09"] = mk("core,reset", "at least one event subscription was released before the final teardown and the end-of-run leak check ran")
+	planTable["C04"] = mk("access", "data was handed to a client as the requested resource at least once (oracle C04.a) in a run in which a revocation trigger (token event on a connection with a token, reaccess event, access reset) was delivered")
+	planTable["C05"] = mk("access", "at least one call/new/auth request was judged (oracle C05.a) in a run in which a revocation trigger was delivered")
+	planTable["C06"] = mk("access,reset", "at least one revocation trigger was delivered while a client held a settled direct subscription it affects (oracle C06.a evaluated)")
+	planTable["C10"] = mk("access", "a token reset was delivered, or at least two token events were")
+	planTable["C12"] = mk("reset,throttle", "at least one get request was identified with certainty as a system-reset re-fetch and checked against the delivered resets")
+	planTable["C13"] = mk("query", "at least one query event was delivered while a settled direct subscriber held a cached query variant, so that a query request for it was demanded")
+	planTable["C15"] = mk("core", "the run delivered at least one service message to the gateway")
+	planTable["C19"] = mk("throttle", "the number of outstanding governed requests reached the configured limit at least once (reset throttle after a reset at a quiet moment, or reference throttle after a lone subscribe)")
+	for k, p := range planTable {
+		p.Profiles = strings.Split(p.Profiles[0], ",")
+		planTable[k] = p
+	}
 }
 
 var expectedProbes = map[string][]string{}
